@@ -21,6 +21,10 @@ CLAIMED = {
    text="Lean theorems: shape; every cell of the matrix equals the recurrence D (hence by C01 the optimum over partial paths) when its optimum is <= threshold and stays above it otherwise; out-of-band cells infinite; returned distance = distance-only routine; compact C layout: rows stay inside their row of the advertised buffer, indices injective, stored columns = left neighbour + Python band (all l1,l2,window); expansion reads each cell from its compact index. Correspondence: Python matrix vs model cell-exact (incl. -1 marking); C full, C compact + dtw_expand_wps, random slices via dtw_expand_wps_slice with red zones; dtw_wps_parts/loc/loc_columns/width/length enumerated completely for l<=9 (16 thorough).",
    note="Trusted: as C01 + ctypes struct mirrors. Region-wise index arithmetic of the C kernel loops is tied through the exhaustive layout comparison and cell-wise matrix comparison, not proved line by line. -1 marking when no admissible end exists (distance inf) is treated as unspecified.",
    technique="Lean 4 proof (refinement + omega layout arithmetic) + differential correspondence", ref="§6 C04"),
+ "C05": dict(
+   text="Lean theorems: any trace-back whose steps realise the recurrence (whatever tie-breaking) is a contiguous monotone path with steps (1,1),(1,0),(0,1), in band/below max_step, starting in the psi-relaxed corner, whose cost incl. penalties equals the cell value; dtw.best_path's deterministic trace-back from any finite cell (custom start included) is such a path; from an optimal end cell its cost is the DTW distance; path length <= len1+len2-1. Correspondence: every path from warping_path, warping_path_fast, best_path on Python/C matrices, best_path_compact, best_path2, warp, custom start (Python, C dtw_best_path_customstart), ndim is re-validated by an independent definition, decided by the model relation IsBack and (Python routes) compared exactly with the model's trace-back.",
+   note="Trusted: as C01. The trace-back is modelled on the exact matrix; the C region walk over the compact layout is tied by correspondence. Selection of the end cell under psi follows the -1 marking; known finding C05-BESTPATH-NOPSI (best_path(paths) without settings, one-sided psi, corner-only marking).",
+   technique="Lean 4 proof (telescoping over the recurrence, strong induction on the trace-back) + differential correspondence", ref="§6 C05"),
 }
 PENDING_REASON = "check under construction in this round (not yet registered); the technique applies, see DESIGN.md §6"
 
